@@ -1,6 +1,6 @@
 (* Model of pkg/framework/state_batch.go (stateSMTBatch, getTreeKey; after fix a73052f: Del passes an empty value) and of
    ABIHandler.Commit / ABIHandler.revert in pkg/framework/handler.go (after fix 8805a3b), relative to an abstract sparse
-   Merkle tree: [smt_update root updates] is Trie.Update started from [root] (node storage is C10's concern).
+   Merkle tree (tree states, batch update, root; see the Section variables — C10 is about exactly these).
    The hash is a Section variable. *)
 From Coq Require Import List NArith Bool Arith.
 From LE Require Import Exec.EventLog Exec.TxExec.
@@ -39,36 +39,45 @@ Definition apply_writes (s : store) (ws : list write) : store := fold_left apply
 
 Section Root.
   Variable hash : bytes -> bytes.
-  Variable R : Type.                                              (* state roots *)
+  (* the sparse Merkle tree kept under prefix 1, abstractly: K = trie keys (bytes.ToBools of the tree key, [enc]),
+     TR = tree states, one batch entry = (key, Some value-hash | None = empty value = delete);
+     [tree_update] is Trie.Update on the stored tree, [tree_root] its root hash *)
+  Variable K : Type.
+  Variable enc : bytes -> K.
+  Variable TR : Type.
+  Variable R : Type.
   Variable root_eqb : R -> R -> bool.                             (* bytes.Equal on roots *)
-  Variable smt_update : R -> list (bytes * bytes) -> R.
+  Variable tree_update : TR -> list (K * option bytes) -> TR.
+  Variable tree_root : TR -> R.
 
   (* getTreeKey: keyBytes[1:7] ++ Hash(keyBytes[7:]); None = slice bounds panic (key shorter than 7 bytes) *)
   Definition tree_key (k : bytes) : option bytes :=
     if Nat.ltb (length k) 7 then None else Some (firstn 6 (skipn 1 k) ++ hash (skipn 7 k)).
 
-  (* stateSMTBatch.Set / Del: the (tree key, value) pairs handed to Trie.Update; empty value = delete the leaf *)
-  Fixpoint tree_updates (ws : list write) : option (list (bytes * bytes)) :=
+  (* stateSMTBatch.Set / Del: what is handed to Trie.Update; Del passes the empty value (= delete the leaf) *)
+  Fixpoint tree_updates (ws : list write) : option (list (K * option bytes)) :=
     match ws with
     | [] => Some []
     | w :: t =>
-        let (k, v) := match w with WSet k v => (k, hash v) | WDel k => (k, []) end in
+        let (k, v) := match w with WSet k v => (k, Some (hash v)) | WDel k => (k, None) end in
         match tree_key k, tree_updates t with
-        | Some tk, Some r => Some ((tk, v) :: r)
+        | Some tk, Some r => Some ((enc tk, v) :: r)
         | _, _ => None
         end
     end.
 
-  (* the application database: state (prefix 0), per-height diffs (prefix 2), tree state record (prefix 3);
-     the tree nodes (prefix 1) are represented by the root they hash to *)
-  Record appdb := { a_state : store; a_diffs : list (N * diff); a_tree_state : option (N * R) }.
+  (* the application database: state (prefix 0), tree nodes (prefix 1), per-height diffs (prefix 2), tree state record
+     (prefix 3) *)
+  Record appdb := { a_state : store; a_tree : TR; a_diffs : list (N * diff); a_tree_state : option (N * R) }.
 
   Fixpoint diff_at (l : list (N * diff)) (h : N) : option diff :=
     match l with [] => None | (h', d) :: t => if h' =? h then Some d else diff_at t h end.
   Definition put_diff (l : list (N * diff)) (h : N) (d : diff) : list (N * diff) :=
     (h, d) :: filter (fun x => negb (fst x =? h)) l.
 
-  Inductive cres := COk (a : appdb) (root : R) | CMismatch (root : R) | CPanic.
+  (* CForeignRoot / RForeignRoot: the caller named a root that is not the root of the stored tree; what smt does with
+     the nodes it finds (or not) under such a root is outside this model — the engine always passes the root of its tip *)
+  Inductive cres := COk (a : appdb) (root : R) | CMismatch (root : R) | CPanic | CForeignRoot.
 
   (* ABIHandler.Commit for the staged cache [c] of the block at [height]; [expected] = None means "not given" (empty) *)
   Definition commit (a : appdb) (c : cache) (height : N) (prev_root : R) (expected : option R) (dry_run : bool) : cres :=
@@ -76,14 +85,16 @@ Section Root.
     match tree_updates ws with
     | None => CPanic
     | Some ups =>
-        let root := smt_update prev_root ups in
+        if negb (root_eqb prev_root (tree_root (a_tree a))) then CForeignRoot else
+        let t' := tree_update (a_tree a) ups in
+        let root := tree_root t' in
         if match expected with Some x => negb (root_eqb root x) | None => false end then CMismatch root else
         if dry_run then COk a root else
-        COk {| a_state := apply_writes (a_state a) ws; a_diffs := put_diff (a_diffs a) height d;
+        COk {| a_state := apply_writes (a_state a) ws; a_tree := t'; a_diffs := put_diff (a_diffs a) height d;
                a_tree_state := Some (height, root) |} root
     end.
 
-  Inductive rres := ROk (a : appdb) (root : R) | RNoDiff | RMismatch (root : R) | RPanic.
+  Inductive rres := ROk (a : appdb) (root : R) | RNoDiff | RMismatch (root : R) | RPanic | RForeignRoot.
 
   (* ABIHandler.revert(height, stateRoot, expectedStateRoot) *)
   Definition revert (a : appdb) (height : N) (state_root : R) (expected : option R) : rres :=
@@ -94,24 +105,30 @@ Section Root.
         match tree_updates ws with
         | None => RPanic
         | Some ups =>
-            let root := smt_update state_root ups in
+            if negb (root_eqb state_root (tree_root (a_tree a))) then RForeignRoot else
+            let t' := tree_update (a_tree a) ups in
+            let root := tree_root t' in
             if match expected with Some x => negb (root_eqb root x) | None => false end then RMismatch root else
-            ROk {| a_state := apply_writes (a_state a) ws; a_diffs := a_diffs a;
+            ROk {| a_state := apply_writes (a_state a) ws; a_tree := t'; a_diffs := a_diffs a;
                    a_tree_state := Some ((height + 2 ^ 32 - 1) mod 2 ^ 32, root) |} root
         end
     end.
 End Root.
 
-Arguments a_state {R} _.
-Arguments a_diffs {R} _.
-Arguments a_tree_state {R} _.
-Arguments Build_appdb {R} _ _ _.
-Arguments COk {R} _ _.
-Arguments CMismatch {R} _.
-Arguments CPanic {R}.
-Arguments ROk {R} _ _.
-Arguments RNoDiff {R}.
-Arguments RMismatch {R} _.
-Arguments RPanic {R}.
-Arguments commit _ {R} _ _ _ _ _ _ _ _.
-Arguments revert _ {R} _ _ _ _ _ _.
+Arguments a_state {TR R} _.
+Arguments a_tree {TR R} _.
+Arguments a_diffs {TR R} _.
+Arguments a_tree_state {TR R} _.
+Arguments Build_appdb {TR R} _ _ _ _.
+Arguments COk {TR R} _ _.
+Arguments CMismatch {TR R} _.
+Arguments CPanic {TR R}.
+Arguments CForeignRoot {TR R}.
+Arguments ROk {TR R} _ _.
+Arguments RNoDiff {TR R}.
+Arguments RMismatch {TR R} _.
+Arguments RPanic {TR R}.
+Arguments RForeignRoot {TR R}.
+Arguments tree_updates _ {K} _ _.
+Arguments commit _ {K} _ {TR R} _ _ _ _ _ _ _ _ _.
+Arguments revert _ {K} _ {TR R} _ _ _ _ _ _ _.
